@@ -33,6 +33,7 @@ import (
 	"crypto/ecdsa"
 	"encoding/hex"
 	"encoding/json"
+	"errors"
 	"fmt"
 	"math/big"
 	"os"
@@ -61,6 +62,8 @@ const (
 	sxRuled    = 4
 	sxUtxos    = 4
 	sxContract = "contract"
+	// op sxf only: C6 is controlled by the SUB-ACCOUNT C1 (rule {C1: 1}), C7 by the sub-account C6 (two levels)
+	sxAcctsExt = 8
 	sxGate     = "$xvgate"
 )
 
@@ -68,6 +71,8 @@ const (
 
 type sxLine struct {
 	cls, ch, form, init, act string
+	ext                      bool   // op sxf: nested accounts C6 / C7, uris of any depth, read faults
+	fault                    string // io:<record>: the storage row of that record cannot be read while the node decides
 	xst                      string // scheme of the signature in the XuperSign slot
 	ver                      int32
 	isg, auth, asg           []string
@@ -84,6 +89,10 @@ func ints(xs []int, sep string) string {
 }
 
 func (l sxLine) String() string {
+	if l.ext {
+		l.ext = false
+		return "sxf" + l.String()[2:] + " fault=" + l.fault
+	}
 	return fmt.Sprintf("sx cls=%s ch=%s ver=%d form=%s init=%s isg=%s auth=%s asg=%s xk=%s xst=%s xsg=%s in=%s act=%s", l.cls, l.ch, l.ver, l.form,
 		l.init, joinOr(l.isg, ","), joinOr(l.auth, ","), joinOr(l.asg, ","), ints(l.xk, ","), l.xst, ints(l.xsg, "_"), joinOr(l.in, ","), l.act)
 }
@@ -95,6 +104,8 @@ func parseInts(s, sep string) []int {
 	}
 	return r
 }
+
+var sxExtNames bool // set while an sxf line is parsed
 
 func sxNameOK(t string, accountsToo bool) bool {
 	if len(t) < 2 {
@@ -108,13 +119,48 @@ func sxNameOK(t string, accountsToo bool) bool {
 	case 'A':
 		return n < sxKeys
 	case 'C':
-		return accountsToo && n < sxAccts
+		return accountsToo && (n < sxAccts || (sxExtNames && n < sxAcctsExt))
 	}
 	return false
 }
 
+// sxSub: the sub-account a nested account's rule names (-1: the rule names a key)
+func sxSub(n int) int {
+	switch n {
+	case 6:
+		return 1
+	case 7:
+		return 6
+	}
+	return -1
+}
+
+// sxFaultRow: the (bucket, key) of the record a fault target names: C<n> the rule of account n, G the rule of the
+// guarded method, O<j> the owner entry of contract j
+func sxFaultRow(t string) (string, string, bool) {
+	switch {
+	case t == "G":
+		return aclu.GetContractBucket(), aclu.MakeContractMethodKey(sxGate, "guarded"), true
+	case len(t) == 2 && t[0] == 'O' && t[1] >= '1' && t[1] <= '3':
+		return aclu.GetContract2AccountBucket(), sxContract + t[1:], true
+	case len(t) == 2 && t[0] == 'C' && t[1] >= '0' && t[1] < '0'+sxAcctsExt:
+		return aclu.GetAccountBucket(), acctName(int(t[1] - '0')), true
+	}
+	return "", "", false
+}
+
 func parseSx(line string) (l sxLine, ok bool) {
 	m := parseKV(strings.Fields(line)[1:])
+	ext := strings.Fields(line)[0] == "sxf"
+	sxExtNames = ext
+	defer func() { sxExtNames = false; l.ext = ext; l.fault = m["fault"] }()
+	if f, has := m["fault"]; has != ext {
+		return l, false
+	} else if ext && f != "" {
+		if _, _, good := sxFaultRow(strings.TrimPrefix(f, "io:")); !good || !strings.HasPrefix(f, "io:") {
+			return l, false
+		}
+	}
 	l = sxLine{cls: m["cls"], ch: m["ch"], form: m["form"], init: m["init"], act: m["act"], xst: m["xst"], isg: splitOr(m["isg"], ","), auth: splitOr(m["auth"], ","),
 		asg: splitOr(m["asg"], ","), in: splitOr(m["in"], ",")}
 	defer func() {
@@ -157,8 +203,13 @@ func parseSx(line string) (l sxLine, ok bool) {
 	}
 	for _, u := range l.auth {
 		p := strings.Split(u, "|")
-		if len(p) > 2 || !sxNameOK(p[len(p)-1], false) || (len(p) == 2 && (p[0][0] != 'C' || !sxNameOK(p[0], true))) {
+		if (len(p) > 2 && !ext) || len(p) > 5 || !sxNameOK(p[len(p)-1], false) {
 			return l, false
+		}
+		for _, c := range p[:len(p)-1] {
+			if c[0] != 'C' || !sxNameOK(c, true) {
+				return l, false
+			}
 		}
 	}
 	cnt := map[string]int{}
@@ -171,7 +222,7 @@ func parseSx(line string) (l sxLine, ok bool) {
 	switch {
 	case l.act == "T" || l.act == "K" || l.act == "G":
 	case len(l.act) == 4 && (l.act[:2] == "S:" || l.act[:2] == "N:") && l.act[2] == 'C' && sxNameOK(l.act[2:], true):
-		exists := int(l.act[3]-'0') < sxRuled
+		exists := int(l.act[3]-'0') < sxRuled || int(l.act[3]-'0') >= sxAccts
 		if exists != (l.act[0] == 'S') {
 			return l, false // a client can only pre-execute SetAccountAcl on a stored account, NewAccount on a free name
 		}
@@ -182,7 +233,13 @@ func parseSx(line string) (l sxLine, ok bool) {
 	return l, true
 }
 
-func sxReal(tok string) string { return string(symIn(strings.Replace(tok, "|", "/", -1))) }
+func sxReal(tok string) string {
+	var parts []string
+	for _, c := range strings.Split(tok, "|") {
+		parts = append(parts, string(symIn(c)))
+	}
+	return strings.Join(parts, "/")
+}
 
 // ---------------------------------------------------------------- the chains
 
@@ -207,7 +264,7 @@ func sxOwners() []string {
 	for i := 0; i < sxKeys; i++ {
 		o = append(o, "A"+strconv.Itoa(i))
 	}
-	for i := 0; i < sxAccts; i++ {
+	for i := 0; i < sxAcctsExt; i++ {
 		o = append(o, "C"+strconv.Itoa(i))
 	}
 	return o
@@ -259,6 +316,11 @@ func getSxImage(ch string) *sxImage {
 	}
 	for a := 0; a < sxRuled; a++ {
 		put(aclu.GetAccountBucket(), acctName(a), sxRule(a))
+	}
+	for a := sxAccts; a < sxAcctsExt; a++ {
+		nested, _ := json.Marshal(&protos.Acl{Pm: &protos.PermissionModel{Rule: protos.PermissionRule_SIGN_THRESHOLD, AcceptValue: 1},
+			AksWeight: map[string]float64{acctName(sxSub(a)): 1}})
+		put(aclu.GetAccountBucket(), acctName(a), nested)
 	}
 	for c := 1; c <= 2; c++ {
 		put(aclu.GetContract2AccountBucket(), sxContract+strconv.Itoa(c), []byte(acctName(c)))
@@ -445,12 +507,19 @@ func sxSigners(l sxLine) map[int]bool {
 func sxVerdict(l sxLine) string {
 	signed := sxSigners(l)
 	num := func(t string) int { return int(atoi(t[1:])) }
-	controls := func(acctTok string) bool { n := num(acctTok); return n < sxRuled && signed[n] }
+	controls := func(acctTok string) bool {
+		n := num(acctTok)
+		for sxSub(n) >= 0 {
+			n = sxSub(n) // a rule that names a sub-account grants what that account's rule grants
+		}
+		return n < sxRuled && signed[n]
+	}
+	ruled := func(n int) bool { return n < sxRuled || n >= sxAccts }
 	if l.init[0] == 'A' {
 		if !signed[num(l.init)] {
 			return "initiator-not-signed"
 		}
-	} else if num(l.init) < sxRuled && !controls(l.init) {
+	} else if ruled(num(l.init)) && !controls(l.init) {
 		// (a name without stored rule is open to everybody: documented behaviour of IdentifyAccount, see C11; what such
 		// a name owns cannot be spent, below)
 		return "initiator-account-rule-not-satisfied"
@@ -464,7 +533,7 @@ func sxVerdict(l sxLine) string {
 		switch {
 		case o[0] == 'A' && !signed[num(o)]:
 			return "owner-not-signed:address"
-		case o[0] == 'C' && num(o) >= sxRuled:
+		case o[0] == 'C' && !ruled(num(o)):
 			return "owner-account-without-rule"
 		case o[0] == 'C' && !controls(o):
 			return "owner-not-signed:account"
@@ -541,7 +610,14 @@ func sxCanonical(l sxLine) bool {
 		}
 		listed[l.init] = true
 	}
-	need := func(a string) bool { return listed[a+"|A"+a[1:]] }
+	need := func(a string) bool {
+		uri, n := a, num(a)
+		for sxSub(n) >= 0 {
+			n = sxSub(n)
+			uri += "|C" + strconv.Itoa(n)
+		}
+		return listed[uri+"|A"+strconv.Itoa(n)]
+	}
 	for _, o := range l.in {
 		if (o[0] == 'A' && !listed[o]) || (o[0] == 'C' && !need(o)) {
 			return false
@@ -592,10 +668,15 @@ func judgeSx(line string, l sxLine, ok bool, verr error, admitted bool) {
 		// Chain.SubmitTx (kernel/engines/xuperos/chain.go) consults only the error of VerifyTx before it calls DoTx
 		out.Violate(xvlib.Violation{Key: "refused-without-error", What: "VerifyTx refuses the transaction (false) but returns no error; Chain.SubmitTx checks only the error and admits it", Ops: []string{line}, Impl: impl})
 	}
+	if l.fault != "" {
+		// the property does not change with the health of the storage: what it refuses above it refuses here; whether an
+		// authorised transaction gets through while a record it relies on is unreadable is not its business
+		out.Count("sxf-under-fault:" + map[bool]string{true: "authorised", false: "unauthorised"}[why == ""] + ":" + map[bool]string{true: "accept", false: "reject"}[ok])
+	}
 	if sxCanonical(l) {
 		out.Count("sx-honestly-built:" + map[bool]string{true: "accept", false: "reject"}[ok])
 	}
-	if !ok && sxCanonical(l) {
+	if !ok && sxCanonical(l) && l.fault == "" {
 		out.Violate(xvlib.Violation{Key: "signed-tx-rejected", What: "a correctly signed and authorised transaction is rejected by VerifyTx", Ops: []string{line}, Impl: impl})
 	}
 	switch {
@@ -624,13 +705,33 @@ func execSx(line string, oracle bool) string {
 		}
 		return "no-tx"
 	}
+	hits := 0
+	if l.fault != "" {
+		// the row of one record of the state database cannot be read (an error that is NOT "not found") from here on,
+		// whoever asks: tip snapshot reader of the acl manager, the sandbox of the re-execution, the commit
+		bucket, key, _ := sxFaultRow(strings.TrimPrefix(l.fault, "io:"))
+		raw := pb.ExtUtxoTablePrefix + bucket + "/" + key
+		store := im.n.StatePath()
+		kvmem.SetReadFault(func(st, k string) error {
+			if st == store && k == raw {
+				hits++
+				return errors.New("verifmem: injected read error (input/output error)")
+			}
+			return nil
+		})
+		defer kvmem.SetReadFault(nil)
+	}
 	ok, verr := im.n.S.VerifyTx(tx)
 	serr := ch.SubmitTx(&xctx.BaseCtx{XLog: im.n.Ctx.XLog}, tx)
+	kvmem.SetReadFault(nil)
 	pending, _ := im.n.S.HasTx(tx.Txid)
 	if serr != nil && !pending {
 		// a refused transaction is sent again to the same entry (which remembers the ids it has seen): still no
 		serr = ch.SubmitTx(&xctx.BaseCtx{XLog: im.n.Ctx.XLog}, tx)
 		pending, _ = im.n.S.HasTx(tx.Txid)
+	}
+	if l.fault != "" {
+		out.Count("sxf-fault-" + map[bool]string{true: "hit", false: "never-consulted"}[hits > 0])
 	}
 	admitted := serr == nil || pending
 	// leave the chain as it was
@@ -648,6 +749,10 @@ func execSx(line string, oracle bool) string {
 	}
 	if oracle {
 		judgeSx(line, l, ok, verr, admitted)
+	}
+	if l.ext {
+		out.Count("sxf:" + map[bool]string{true: "accept", false: "reject"}[ok])
+		return "-" // nested accounts and read faults: judged by the oracle on the line's content, not modelled
 	}
 	res := "verify=reject"
 	if ok {
@@ -879,6 +984,66 @@ func genSx(thorough bool, rng *xvlib.Rng, run func(string, bool)) {
 				if thorough || rng.Intn(4) == 0 {
 					l := f
 					l.ch, l.ver, l.in = v.ch, v.ver, own
+					emit(l)
+				}
+			}
+		}
+	}
+}
+
+// genSxf: accounts controlled through SUB-ACCOUNTS (uris of depth 3 and 4) and the storage failing to read ONE record
+// (the rule of an account on the path, of the owner, of the called method, the owner entry of a contract) while the node
+// decides.  Who signs: the key the innermost rule names (authorised) or a stranger that only puts itself at the end of
+// the path; every record on the path and beside it is made unreadable in turn.
+func genSxf(thorough bool, rng *xvlib.Rng, run func(string, bool)) {
+	type who struct {
+		key  int
+		path string // the uri up to the key
+	}
+	paths := map[string][]string{"C1": {"C1"}, "C2": {"C2"}, "C6": {"C6|C1", "C6"}, "C7": {"C7|C6|C1", "C7|C6", "C7|C1", "C7"}}
+	faults := []string{"", "io:C1", "io:C2", "io:C6", "io:C7", "io:G", "io:O1", "io:C0"}
+	emit := func(l sxLine) { l.ext = true; run(l.String(), true) }
+	for _, ver := range []int32{3, 1} {
+		for _, ch := range []string{"p", "m"} {
+			if ch == "m" && ver == 1 && !thorough {
+				continue
+			}
+			for _, own := range []string{"C6", "C7", "C1", "C2"} {
+				for _, pth := range paths[own] {
+					for _, k := range []int{1, 5, 2} {
+						for _, ft := range faults {
+							base := sxLine{cls: "nested", ch: ch, ver: ver, form: "c", init: "A" + strconv.Itoa(k), isg: []string{strconv.Itoa(k)},
+								auth: []string{pth + "|A" + strconv.Itoa(k)}, asg: []string{strconv.Itoa(k)}, xst: "m", act: "T", fault: ft}
+							// the account's tokens, its rule, a method rule of a contract it owns, the guarded method
+							l := base
+							l.in = []string{own}
+							emit(l)
+							if ch == "m" && !thorough && rng.Intn(3) != 0 {
+								continue
+							}
+							l = base
+							l.act = "S:" + own
+							emit(l)
+							l = base
+							l.init, l.in = own, []string{own} // the account itself initiates
+							emit(l)
+							if own == "C1" || own == "C2" {
+								l = base
+								l.act = "M:c" + own[1:]
+								emit(l)
+								l = base
+								l.act = "G"
+								emit(l)
+							}
+						}
+					}
+				}
+			}
+			// the aggregated form with a nested path
+			for _, ft := range faults {
+				for _, k := range []int{1, 5} {
+					l := sxLine{cls: "nested:x", ch: ch, ver: ver, form: "x", init: "A" + strconv.Itoa(k), auth: []string{"C6|C1|A" + strconv.Itoa(k)},
+						xk: []int{k}, xsg: []int{k}, xst: "e", in: []string{"C6"}, act: "T", fault: ft}
 					emit(l)
 				}
 			}
